@@ -214,7 +214,7 @@ func decodeStruct(p Paragraph, into reflect.Value) error {
 			}
 		}
 
-		if value, ok := p.Values[paragraphKey]; ok {
+		if value, ok := p.lookupFold(paragraphKey); ok {
 			if err := decodeStructValue(field, fieldType, value); err != nil {
 				return err
 			}
